@@ -80,7 +80,8 @@ FORMATS = {"simple": ["kthlist", "gml", "dot", "dimacs"],
            "dag": ["kthlist", "gml", "dot", "dimacs"],
            "bipartite": ["kthlist", "gml", "dot", "matrix"]}
 NAMES = [None, "my graph", "graph with newline\n", "c 3", "café", "",
-         "p edge 1 0", "two\nlines", "x\n2\ne 1 2", "a\rb", "t\n1 : 2 0\n"]
+         "p edge 1 0", "two\nlines", "x\n2\ne 1 2", "a\rb", "t\n1 : 2 0\n",
+         'quo"te', "back\\", '"', "semi;colon {brace}", "<html>", "%d"]
 
 
 def _gen_graph(rng, gtype):
